@@ -45,6 +45,12 @@ def reset_settings(**over):
             raise KeyError(k)
         setattr(settings, k, v)
     FunctionalAssignment.exact_func_moments = settings.exact_func_moments
+    # generated names (_u3, _old7, ...) depend on a process-global counter; start every case from the
+    # state of a fresh process so that a case behaves the same in a worker and in a replay (history
+    # dependence is C20's subject and is explored there on purpose)
+    import utils.identifiers as ident
+
+    ident._count_unique_var = 0
 
 
 def parse(text):
